@@ -355,7 +355,7 @@ Proof.
   destruct (wta_flags _ _ _ _ _ _ (okf_flags k' val pe) W) as [Fd Fi]. pose proof (wta_span _ _ _ _ _ _ (okf_span k' val pe) W) as Fs.
   subst cur1. rewrite span_set_span in Fs. rewrite dotted_set_span in Fd. rewrite implicit_set_span in Fi.
   destruct (sds_props path cur' (Some e)) as (P1 & P2 & P3).
-  Show. exists a, e. rewrite P1, P2, P3, Fs, Fd, Fi. repeat split; auto.
+  exists a, e. cbn [st_current st_root]. rewrite P1, P2, P3, Fs, Fd, Fi. repeat split; auto.
   rewrite <- (set_span_same cur'), Fs.
   eapply (okf_sds_nest a k' val pe mid av e Sv L1 L2 Hval path _ (Some (a, e)) c); [| | | | |exact W].
   - rewrite set_span_set_span. eapply tnestH_widen; [| |exact Hc|exact S]; lia.
